@@ -79,13 +79,17 @@ inductive IoRes (α : Type) where
   | hang
   deriving DecidableEq, Repr, Inhabited
 
-/-- the `?` operator on a method result: go on with the value and the state, or leave -/
+/-- the `?` operator on a method result: go on with the value and the state, or leave with the error (`g` puts
+    the part of the state the callee worked on back in place) -/
 def andThen {α β σ τ : Type} (a : IoRes α × σ) (f : α → σ → IoRes β × τ) (g : σ → τ) : IoRes β × τ :=
   match a with
   | (.ok x, s) => f x s
   | (.err e, s) => (.err e, g s)
   | (.panic, s) => (.panic, g s)
   | (.hang, s) => (.hang, g s)
+
+/-- a call on a part of the state: the result as it is, the new part put back in place -/
+def mapState {α σ τ : Type} (f : σ → τ) (a : IoRes α × σ) : IoRes α × τ := (a.1, f a.2)
 
 /-- `memchr::memrchr(needle, haystack)`: the LAST position of the byte -/
 def memrchr (needle : UInt8) : Bytes → Option Nat
@@ -246,8 +250,8 @@ def writeCold (W : Writer ω) (bw : BufWriter ω) (buf : Bytes) : IoRes Nat × B
   andThen (if buf.length > bw.spareCapacity then flushBuf W bw else (.ok (), bw))   -- 365-367 self.flush_buf()?
     (fun _ bw =>
       if buf.length ≥ bw.cap then                                        -- 371
-        let (r, inner) := W.write bw.inner buf                           -- 373 self.get_mut().write(buf)
-        (r, { bw with inner := inner })                                  -- 375
+        mapState (fun inner => { bw with inner := inner })               -- 375 r
+          (W.write bw.inner buf)                                         -- 373 self.get_mut().write(buf)
       else
         match bw.writeToBufferUnchecked buf with                         -- 387
         | none => (.panic, bw)
@@ -267,8 +271,8 @@ def writeAllCold (W : Writer ω) (bw : BufWriter ω) (buf : Bytes) : IoRes Unit 
   andThen (if buf.length > bw.spareCapacity then flushBuf W bw else (.ok (), bw))   -- 407-409 self.flush_buf()?
     (fun _ bw =>
       if buf.length ≥ bw.cap then                                        -- 413
-        let (r, inner) := W.writeAll bw.inner buf                        -- 415 self.get_mut().write_all(buf)
-        (r, { bw with inner := inner })                                  -- 417
+        mapState (fun inner => { bw with inner := inner })               -- 417 r
+          (W.writeAll bw.inner buf)                                      -- 415 self.get_mut().write_all(buf)
       else
         match bw.writeToBufferUnchecked buf with                         -- 429
         | none => (.panic, bw)
@@ -287,8 +291,8 @@ def writeAll (W : Writer ω) (bw : BufWriter ω) (buf : Bytes) : IoRes Unit × B
 def flush (W : Writer ω) (bw : BufWriter ω) : IoRes Unit × BufWriter ω :=
   andThen (flushBuf W bw)                                                -- 644 self.flush_buf()?
     (fun _ bw =>
-      let (r, inner) := W.flush bw.inner                                 -- 645 self.get_mut().flush()
-      (r, { bw with inner := inner }))
+      mapState (fun inner => { bw with inner := inner })
+        (W.flush bw.inner))                                              -- 645 self.get_mut().flush()
     id
 
 /-- 674-681 `Drop for BufWriter` (no panic in flight): `let _r = self.flush_buf();`, what is left of the value
@@ -393,8 +397,8 @@ def writeAll (W : Writer ω) (buffer : BufWriter ω) (buf : Bytes) : IoRes Unit 
     | some lines, some tail =>
       andThen
         (if buffer.buf.isEmpty then                                      -- 280 if self.buffered().is_empty()
-          let (r, inner) := W.writeAll buffer.inner lines                -- 281 self.inner_mut().write_all(lines)?
-          (r, { buffer with inner := inner })
+          mapState (fun inner => { buffer with inner := inner })
+            (W.writeAll buffer.inner lines)                              -- 281 self.inner_mut().write_all(lines)?
         else
           andThen (BufWriter.writeAll W buffer lines)                    -- 289 self.buffer.write_all(lines)?
             (fun _ buffer => BufWriter.flushBuf W buffer)                -- 290 self.buffer.flush_buf()?
@@ -413,18 +417,15 @@ def withCapacity (capacity : Nat) (inner : ω) : LineWriter ω := ⟨BufWriter.w
 
 /-- linewriter.rs:192-194 -/
 def write (W : Writer ω) (lw : LineWriter ω) (buf : Bytes) : IoRes Nat × LineWriter ω :=
-  let (r, b) := Shim.write W lw.inner buf
-  (r, ⟨b⟩)
+  mapState LineWriter.mk (Shim.write W lw.inner buf)
 
 /-- linewriter.rs:208-210 -/
 def writeAll (W : Writer ω) (lw : LineWriter ω) (buf : Bytes) : IoRes Unit × LineWriter ω :=
-  let (r, b) := Shim.writeAll W lw.inner buf
-  (r, ⟨b⟩)
+  mapState LineWriter.mk (Shim.writeAll W lw.inner buf)
 
 /-- linewriter.rs:196-198 `self.inner.flush()` (= linewritershim.rs:145-147) -/
 def flush (W : Writer ω) (lw : LineWriter ω) : IoRes Unit × LineWriter ω :=
-  let (r, b) := BufWriter.flush W lw.inner
-  (r, ⟨b⟩)
+  mapState LineWriter.mk (BufWriter.flush W lw.inner)
 
 /-- `LineWriter<W>` as a `Write`; `StdoutLock` (io/stdio.rs:845-865) forwards `write`, `write_all`, `flush` to it -/
 def writer (W : Writer ω) : Writer (LineWriter ω) where
@@ -478,6 +479,15 @@ def mainWrites (capacity lineCapacity : Nat) (oracle : List WAns) (xs : List Byt
   let lock := BufWriter.drop lineWriter stdout                           -- end of `main`: drop(stdout)
   let raw := LineWriter.drop Sink.writer lock                            -- io/stdio.rs:739
   (IoRes.status r, raw)
+
+/-- an engine that writes `xs` and then returns `Err` (a failing record; tuc.rs:286 / 294-300 `?`): `main` returns
+    without `flush()`, the two drops still happen -/
+def mainWritesThenErr (capacity lineCapacity : Nat) (oracle : List WAns) (xs : List Bytes) : Status × Sink :=
+  let stdout := Stdout.new capacity lineCapacity oracle
+  let (r, stdout) := writeAlls stdoutWriter xs stdout
+  let lock := BufWriter.drop lineWriter stdout
+  let raw := LineWriter.drop Sink.writer lock
+  ((match IoRes.status r with | .ok => .fail | st => st), raw)
 
 /-- the same with the seeded defect "flush only if the `BufWriter` is not empty" in place of tuc.rs:303 -/
 def sessionSkippingEmpty {ω : Type} (W : Writer ω) (xs : List Bytes) (bw : BufWriter ω) : IoRes Unit × BufWriter ω :=
@@ -547,16 +557,19 @@ def filled (br : BufReader ρ) : Nat := br.buf.length
 /-- buffer.rs:49-53 `buffer()`: `self.buf.get_unchecked(self.pos..self.filled)` -/
 def buffer (br : BufReader ρ) : Option Bytes := sliceRange br.buf br.pos br.filled
 
+/-- buffer.rs:142-157, the refill inside `fill_buf` -/
+def refill (R : Reader ρ) (br : BufReader ρ) : IoRes Unit × BufReader ρ :=
+  match R.readBuf br.inner br.cap with                                   -- 142 BorrowedBuf::from(&mut *self.buf); 151 reader.read_buf(buf.unfilled())
+  | (.ok bytes, inner) => (.ok (), { br with pos := 0, buf := bytes, inner := inner })   -- 153 self.pos = 0; 154 self.filled = buf.len(); 157 result?
+  | (.err e, inner) => (.err e, { br with pos := 0, buf := [], inner := inner })
+  | (.panic, inner) => (.panic, { br with pos := 0, buf := [], inner := inner })
+  | (.hang, inner) => (.hang, { br with pos := 0, buf := [], inner := inner })
+
 /-- buffer.rs:134-160 `fill_buf` (bufreader.rs:453-455) -/
 def fillBuf (R : Reader ρ) (br : BufReader ρ) : IoRes Bytes × BufReader ρ :=
   andThen
-    (if br.pos ≥ br.filled then                                          -- 139
-      let (result, inner) := R.readBuf br.inner br.cap                   -- 142 BorrowedBuf::from(&mut *self.buf), 151 reader.read_buf(buf.unfilled())
-      let read := match result with | .ok bytes => bytes | _ => []
-      let br := { br with pos := 0, buf := read, inner := inner }        -- 153 self.pos = 0; 154 self.filled = buf.len()
-      (match result with                                                 -- 157 result?
-        | .ok _ => (.ok (), br) | .err e => (.err e, br) | .panic => (.panic, br) | .hang => (.hang, br))
-    else (.ok (), br))
+    (if br.pos ≥ br.filled then refill R br                              -- 139
+     else (.ok (), br))
     (fun _ br =>
       match br.buffer with                                               -- 159 Ok(self.buffer())
       | none => (.panic, br)
@@ -574,8 +587,8 @@ def discardBuffer (br : BufReader ρ) : BufReader ρ := { br with pos := 0, buf 
 def readBuf (R : Reader ρ) (br : BufReader ρ) (len : Nat) : IoRes Bytes × BufReader ρ :=
   if br.pos = br.filled ∧ len ≥ br.cap then                              -- 356
     let br := br.discardBuffer                                           -- 357
-    let (r, inner) := R.readBuf br.inner len                             -- 358 return self.inner.read_buf(cursor)
-    (r, { br with inner := inner })
+    mapState (fun inner => { br with inner := inner })
+      (R.readBuf br.inner len)                                           -- 358 return self.inner.read_buf(cursor)
   else
     andThen (fillBuf R br)                                               -- 362 let mut rem = self.fill_buf()?
       (fun rem br =>
